@@ -4,6 +4,7 @@
 #include "place_detailed/row_legalizer.hpp"
 #include "place_detailed/detailed_placement.hpp"
 #include "place_global/transportation.hpp"
+#include "place_global/transportation_1d.hpp"
 #include <algorithm>
 #include "json.hpp"
 #include "project.hpp"
@@ -337,8 +338,36 @@ inline Value handleSsp(const Value &v) {
   return r;
 }
 
+// T1dImpl final state: the real sweep on the same sorted instance must give the same plan and the same assignment
+inline Value handleT1dImpl(const Value &v) {
+  std::vector<long long> u = v["u"].longs(), vv = v["v"].longs(), s = v["s"].longs(), d = v["d"].longs();
+  int nr = (int)u.size(), ns = (int)vv.size();
+  std::vector<long long> cu = u, cv = vv, cs = s, cd = d;
+  Transportation1dSolver solver(std::move(cu), std::move(cv), std::move(cs), std::move(cd));
+  solver.check();
+  solver.run();
+  std::vector<std::vector<long long>> plan(ns, std::vector<long long>(nr, 0));
+  for (auto [i, j, a] : solver.computeSolution()) plan[j][i] += a;
+  std::vector<int> assign = solver.computeAssignment();
+  bool same = (int)assign.size() == nr;
+  for (int j = 0; j < ns; ++j)
+    for (int i = 0; i < nr; ++i)
+      if (plan[j][i] != v["plan"][j][i].asInt()) same = false;
+  for (int i = 0; i < nr && same; ++i)
+    if (assign[i] != v["assign"][i].asInt()) same = false;
+  Value r = Value::object();
+  r.set("ok", true).set("impl", same);
+  if (!same) {
+    Value got = Value::array();
+    for (int j = 0; j < ns; ++j) got.push(Value::from(plan[j]));
+    r.set("got", got);
+  }
+  return r;
+}
+
 inline Value handle(const Value &v) {
   const std::string &k = v["k"].asStr();
+  if (k == "t1dimpl") return handleT1dImpl(v);
   if (k == "pin") return handlePin(v);
   if (k == "row") return handleRow(v);
   if (k == "incr") return handleIncr(v);
